@@ -301,6 +301,10 @@ class C07(IRProp):
         bads = []
         for sd, (case, regs, B, plans, seen, err) in runs:
             if plans is None or err is not None:
+                # registrations of the generated vocabulary (scopes over the module's own blocks and functions, `nop` patches) are
+                # never refused: an exception here is a registration that did not land
+                bads.append(dict(what=f"{'registering' if plans is None else 'apply() with'} insertions of the supported vocabulary raises {err}",
+                                 input={"seed": sd, "regs": repr(regs)}, finding=None))
                 continue
             v = self.check_case(case, regs, B, plans, seen)
             if v:
